@@ -76,7 +76,7 @@ func genSame(t *rapid.T) SCase {
 		// A's response is paused with its first message still held in the network; A cancels; B arrives and
 		// is being served when A's connection breaks and the held message fails
 		c.PauseAt, c.StallAt, c.SendStall, c.SendFail = 1, 0, []int{0}, nil
-		c.BHoldAt, c.BWhole, c.BRoot = rapid.IntRange(1, 2).Draw(t, "bh"), true, 0
+		c.BHoldAt, c.BWhole, c.BRoot = rapid.IntRange(1, 2).Draw(t, "bh"), true, len(c.DAG.Blocks)-1 // (the DAG's root is its last block)
 		c.Ops = append(c.Ops, "acancel", "bnew", "adisc", "release")
 	case 1:
 		// A's response was paused and resumed, the resumed traversal is held in a hook; A cancels; B arrives
